@@ -44,3 +44,22 @@ Theorem C15_old_default_order_refuted :
   exists text : str,
     blank_runs_ok 1 0 (split_lines (snd (linewise pipe_step [PLimit (LimitEmptyLines_init 1); PTrim] text))) = false.
 Proof. exists [97; 10; 32; 10; 32; 10; 32; 10; 98; 10]. vm_compute. reflexivity. Qed.
+
+(* F-COPY-UNIVERSAL-NEWLINES (fixed b0be4ff): _copy_header_using_line_pps used to open the resource with universal newlines:
+   CR LF and lone CR arrive as LF before the loop sees them *)
+Fixpoint universal_newlines (s : str) : str :=
+  match s with
+  | [] => []
+  | c :: s' =>
+      if c =? CR then LF :: (match s' with d :: s'' => if d =? LF then universal_newlines s'' else universal_newlines s' | [] => [] end)
+      else c :: universal_newlines s'
+  end.
+
+Definition copy_header_old {S : Type} (step : S -> line -> S * line) (text : str) (st : S) : S * str :=
+  copy_header step (py_lines (universal_newlines text)) st.
+
+(* "a  \r\nb": the CR LF terminator is not kept *)
+Theorem C15_copy_header_keeps_terminators_refuted :
+  exists text : str,
+    snd (copy_header_old pipe_step text [PTrim]) <> snd (linewise pipe_step [PTrim] text).
+Proof. exists [97; 32; 32; 13; 10; 98]. vm_compute. discriminate. Qed.
